@@ -331,7 +331,6 @@ def extensions_clean_contract():
             if isinstance(vs, Exc):
                 yield p1, vs; continue
             named_args = dict(zip(kw, vs))
-            x.oblige('extension constructor receives this call\'s allow_custom', p1.pc, z3.BoolVal(named_args.get('allow_custom') is x.params['allow_custom']), p1.exact, 'call-requires')
             for exn in FAMILY: yield p1.fork(), Exc(exn, site + ':constructor')
             idx = p1.ghost.get('iter_index')
             yield p1, Rec(has_custom=Bool(EXT_HC(idx)))
@@ -375,6 +374,136 @@ def extensions_clean_contract():
                     store_handler=store, loops={0: {'kind': 'inv', 'inv': inv}},
                     assumptions=['callee contracts used: class_for_type (registry lookup), the extension class constructor (may refuse with a library error; its result reports has_custom), _validate_id (may raise ValueError)'],
                     note='a ready-made extension object is subject to the same strict check and contributes to the flag like one built from a dictionary')
+
+
+# ------------------------------------------------------------------ ObservableProperty.clean (observed-data `objects`)
+NOBS = z3.Int('len(objects)')
+OBS_KEY = z3.Function('objects.key', z3.IntSort(), S)
+OBS_IS_OBJ = z3.Function('parse_observable(member).is_library_object', z3.IntSort(), z3.BoolSort())
+OBS_HC = z3.Function('parse_observable(member).has_custom', z3.IntSort(), z3.BoolSort())
+OBS_TYPE = z3.Function('parse_observable(member)[type]', z3.IntSort(), S)
+
+
+def obs_custom(j):
+    """member j is custom content: a library object that says so, or a dictionary (what parse_observable returns for an unregistered type)"""
+    return z3.If(OBS_IS_OBJ(j), OBS_HC(j), z3.BoolVal(True))
+
+
+def observable_clean_contract():
+    SCOPE_TEXT = "{k: v['type'] for k, v in dictified.items()}"
+
+    def h_get_dict(x, e, p, site):
+        yield p.fork(), Exc('ValueError', site + ':_get_dict')
+        yield p, Val('opaque', x='dictified')
+
+    def h_deepcopy(x, e, p, site):
+        for p1, vs in x.ev_seq(list(e.args), p):
+            if isinstance(vs, Exc): yield p1, vs
+            else: yield p1.fork(NOBS >= 0), Val('obsdict', x='dictified')
+
+    def cmp_empty(x, op, a, b, p, site):
+        if not (b.sort == 'litdict' and not b.x and isinstance(op, (ast.Eq, ast.NotEq))): raise Unsupported(site + ' comparison of the objects dictionary')
+        yield p, Bool(NOBS == 0 if isinstance(op, ast.Eq) else NOBS != 0)
+
+    def scope_map(x, e, p, site=None):
+        # the reference scope of the members: key -> type of every member of *this* dictionary (recognised by its text; any other spelling is unsupported => undecided)
+        if 'dictified' not in p.env or p.env['dictified'].sort != 'obsdict': raise Unsupported('scope map over something that is not the copied objects dictionary')
+        yield p, Val('obsscope', x='key -> type of every member')
+
+    def m_items(x, recv, args, e, p, site):
+        yield p, Seq(lambda i: Val('tuple', x=[Str(OBS_KEY(i)), Val('obsmember', i)]), NOBS)
+
+    def h_parse_observable(x, e, p, site):
+        pos = list(e.args); kw = {k.arg: k.value for k in e.keywords if k.arg}
+        for p1, vs in x.ev_seq(pos + list(kw.values()), p):
+            if isinstance(vs, Exc):
+                yield p1, vs; continue
+            bound = dict(zip(['data', '_valid_refs', 'allow_custom', 'version'], vs[:len(pos)])); bound.update(zip(kw, vs[len(pos):]))
+            idx = p1.ghost.get('iter_index')
+            d = bound.get('data')
+            x.oblige('parse_observable receives the member of this iteration', p1.pc, z3.BoolVal(d is not None and d.sort == 'obsmember' and z3.eq(d.t, idx)), p1.exact, 'call-requires')
+            x.oblige('parse_observable receives the key -> type map of this dictionary as reference scope', p1.pc, z3.BoolVal(bound.get('_valid_refs') is not None and bound['_valid_refs'].sort == 'obsscope'), p1.exact, 'call-requires')
+            x.oblige('parse_observable receives the property\'s spec version', p1.pc, z3.BoolVal(bound.get('version') is x.params['self'].x['spec_version']), p1.exact, 'call-requires')
+            for exn in FAMILY: yield p1.fork(), Exc(exn, site + ':parse_observable')
+            yield p1, Val('obsparsed', idx)
+
+    def isinst_base(x, v, p, site):
+        if v.sort != 'obsparsed': raise Unsupported(site + ' isinstance _STIXBase of ' + v.sort)
+        yield p, Bool(OBS_IS_OBJ(v.t))
+
+    def attr_has_custom(x, o, p, site): yield p, Bool(OBS_HC(o.t))
+    def sub_type(x, o, k, p, site):
+        if not (k.sort == 'str' and z3.is_string_value(k.t) and k.t.as_string() == 'type'): raise Unsupported(site + ' subscript of a parsed member')
+        yield p, Str(OBS_TYPE(o.t))
+
+    def store(x, tgt, v, q): pass            # dictified[key] = parsed_obj: the output dictionary is not part of this contract
+
+    def inv(x, env, i, it):
+        j = z3.Int('j!o')
+        return z3.And(env['has_custom'].t == z3.Exists([j], z3.And(0 <= j, j < i, obs_custom(j))),
+                      z3.Or(env['allow_custom'].t, z3.Not(env['has_custom'].t)))
+
+    def ens(a, r):
+        j = z3.Int('j!oe')
+        if r.sort != 'tuple' or len(r.x) != 2 or r.x[1].sort != 'bool': raise SortMismatch('result shape')
+        anyc = z3.Exists([j], z3.And(0 <= j, j < NOBS, obs_custom(j)))
+        return z3.And(NOBS > 0, r.x[1].t == anyc, z3.Implies(z3.Not(a['allow_custom'].t), z3.Not(anyc)))
+
+    def outcomes(x, outs, add):
+        for i, (kind, p, v) in enumerate(outs):
+            if kind == 'raise' and v.name == 'CustomContentError' and ':parse_observable' not in v.site:
+                add(f'CustomContentError raised here only with customisation disallowed @path{i}', p.pc, z3.Not(x.params['allow_custom'].t), p.exact and v.exact)
+    def call(py):
+        import stix2.properties as P, copy as _c
+        r = P.ObservableProperty(spec_version=py['spec_version']).clean(_c.deepcopy(py['value']), py['allow_custom'])
+        if py['spec_version'] == '2.0':        # what the cleaned members are for: the enclosing observed-data is written and read back under every key order
+            import stix2
+            py['_round_trip'] = None
+            try:
+                od = stix2.v20.ObservedData(objects=_c.deepcopy(py['value']), first_observed='2020-01-01T00:00:00Z', last_observed='2020-01-01T00:00:00Z', number_observed=1, allow_custom=py['allow_custom'])
+                for opts in ({}, {'pretty': True}, {'sort_keys': True}):
+                    if stix2.parse(od.serialize(**opts), allow_custom=py['allow_custom']) != od: py['_round_trip'] = f'parse(serialize({opts})) differs'
+            except Exception as ex: py['_round_trip'] = f'{type(ex).__name__}: {ex}'
+        return r
+
+    def search():
+        f = {'type': 'file', 'name': 'f'}; fc = {'type': 'file', 'name': 'g', 'x_vf': 1}; xo = {'type': 'x-vf-unregistered', 'a': 1}
+        shapes = [('empty', {}, None), ('one member', {'0': f}, False), ('custom property on the first of two', {'0': fc, '1': f}, True), ('custom property on the last of two', {'0': f, '1': fc}, True),
+                  ('unregistered type', {'0': f, '1': xo}, True), ('unregistered type first', {'a': xo, 'b': f}, True),
+                  ('member referring to a later key', {'1': {'type': 'directory', 'path': '/x'}, '0': {'type': 'file', 'name': 'f', 'parent_directory_ref': '1'}}, False),
+                  ('twelve members', dict({str(i): {'type': 'ipv4-addr', 'value': f'10.0.0.{i}'} for i in range(2, 12)}, **{'12': {'type': 'network-traffic', 'protocols': ['tcp'], 'src_ref': '2', 'dst_ref': '11'}}), False)]
+        for ver in ('2.0', '2.1'):
+            for name, v, custom in shapes:
+                if ver == '2.1' and name in ('member referring to a later key', 'twelve members'): continue        # references by key are the STIX 2.0 form
+                for ac in (False, True): yield {'value': v, 'allow_custom': ac, 'spec_version': ver, 'shape': name, 'custom': custom}
+
+    def judge(py, outcome, ob):
+        kind, val = outcome; bad = []
+        what = f"{py['shape']} ({py['spec_version']}, allow_custom={py['allow_custom']})"
+        if py['custom'] is None: return [] if kind == 'raise' and isinstance(val, ValueError) else [f'empty dictionary not refused with ValueError: {what}']
+        if py['custom'] and not py['allow_custom']:
+            return [] if kind == 'raise' else [f'custom member accepted in strict mode: {what}']
+        if kind == 'raise': return [f'valid members refused: {what}: {type(val).__name__}: {val}']
+        members, flag = val
+        if py.get('_round_trip'): bad.append(f'the observed-data holding these members does not survive a round trip: {py["_round_trip"]}: {what}')
+        if flag != py['custom']: bad.append(f'has_custom={flag}, expected {py["custom"]}: {what}')
+        for k, m in members.items():
+            mod = type(m).__module__
+            if mod.startswith('stix2.') and ('v20' if py['spec_version'] == '2.0' else 'v21') not in mod: bad.append(f'member {k} built as {mod}.{type(m).__name__}: {what}')
+        return bad
+    rp = Replay(call=call, judge=judge); rp.search = search
+    return Contract(f'{PR}::ObservableProperty.clean', props=['C04', 'C01', 'C02'], replay=rp,
+                    params={'self': Rec(spec_version=Str(z3.String('self.spec_version'))), 'value': 'opaque', 'allow_custom': 'bool'},
+                    ensures=[('non-empty; has_custom <=> some member is custom content (a library object that says so, or a dictionary kept for an unregistered type); strict mode => none is', ens)],
+                    raises=dict(FAMILY), on_outcomes=outcomes,
+                    handlers={'_get_dict': h_get_dict, 'copy.deepcopy': h_deepcopy, 'parse_observable': h_parse_observable, 'isinstance:_STIXBase': isinst_base},
+                    expr_hooks={SCOPE_TEXT: scope_map},
+                    registry_ext={'methods': {('.items', 'obsdict'): m_items}, 'attrs': {('obsparsed', 'has_custom'): attr_has_custom},
+                                  'compare': {('obsdict', 'litdict'): cmp_empty}, 'subscript': {('obsparsed', 'str'): sub_type}},
+                    store_handler=store, loops={0: {'kind': 'inv', 'inv': inv}},
+                    assumptions=['callee contract used: parse_observable (may refuse with a library error; returns a library object reporting has_custom, or a dictionary for an unregistered type)',
+                                 'the reference scope is recognised by its source text ' + SCOPE_TEXT + '; any other spelling leaves the contract undecided'],
+                    note='every member is parsed with the key -> type map of the whole dictionary as its reference scope, the caller\'s switch and the property\'s version')
 
 
 # ------------------------------------------------------------------ EnumProperty / HexProperty / DictionaryProperty / FloatProperty .clean
